@@ -16,6 +16,7 @@ import (
 	"errors"
 	"fmt"
 	"io"
+	"math/big"
 	"sort"
 	"strconv"
 	"strings"
@@ -244,4 +245,56 @@ func ParseFile(b []byte) (version, fallbackURL, sigHeader string, headerCBOR, pa
 	headerCBOR = b[pos+sl : pos+sl+hl]
 	payload = b[pos+sl+hl:]
 	return
+}
+
+// VerifyLenient answers the cryptographic question only: do the first two INTEGERs found in sig (whatever the
+// encoding around them: superfluous leading zeros, long-form or indefinite lengths, further elements or bytes after
+// them) form a valid ECDSA signature (r, s) of msg under pub? A verifier that is lenient about the ENCODING of a
+// signature accepts nothing a strict one would not also accept in canonical form, so such leniency never authenticates
+// altered content.
+func VerifyLenient(pub *ecdsa.PublicKey, msg, sig []byte) bool {
+	d, err := digest(pub, msg)
+	if err != nil {
+		return false
+	}
+	tlv := func(b []byte) (tag byte, val, rest []byte, ok bool) {
+		if len(b) < 2 {
+			return
+		}
+		tag = b[0]
+		l, off := int(b[1]), 2
+		switch {
+		case b[1] == 0x80: // indefinite: take everything (the two INTEGERs come first)
+			return tag, b[2:], nil, true
+		case b[1] > 0x80:
+			n := int(b[1] & 0x7f)
+			if n > 4 || len(b) < 2+n {
+				return
+			}
+			l = 0
+			for _, c := range b[2 : 2+n] {
+				l = l<<8 | int(c)
+			}
+			off = 2 + n
+		}
+		if l < 0 || len(b) < off+l {
+			return
+		}
+		return tag, b[off : off+l], b[off+l:], true
+	}
+	tag, body, _, ok := tlv(sig)
+	if !ok || tag != 0x30 {
+		return false
+	}
+	t1, rv, rest, ok1 := tlv(body)
+	if !ok1 || t1 != 0x02 {
+		return false
+	}
+	t2, sv, _, ok2 := tlv(rest)
+	if !ok2 || t2 != 0x02 {
+		return false
+	}
+	// (magnitudes: an INTEGER whose sign octet was dropped carries the same r / s for a parser that reads it unsigned)
+	r, s := new(big.Int).SetBytes(rv), new(big.Int).SetBytes(sv)
+	return ecdsa.Verify(pub, d, r, s)
 }
